@@ -84,9 +84,11 @@ def returned_values(bi):
                     continue
                 expand(d[0], bi.T._of_def(t[1], d, 1), depth + 1)
             return
-        t = refine(bi, t)       # values read back from a carrier local (`break Some(x)` .. `Some(x) => Ready(x)`)
-        kind, payload = classify(t)
-        out.append((block, kind, payload, t))
+        # values read back from a carrier local (`break Some(x)` .. `Some(x) => Ready(x)`): one entry per
+        # alternative, located at the carrier definition that fixes it
+        for t2, anchor in refine_alts(bi, t):
+            kind, payload = classify(t2)
+            out.append((anchor if anchor is not None else block, kind, payload, t2))
 
     for b, i, rv in bi.assigns_to_return():
         if rv.get("k") == "callresult":
@@ -131,6 +133,56 @@ def refine(bi, t, depth=0):
     if t[0] == "agg":
         return ("agg", t[1], tuple(refine(bi, x, depth + 1) for x in t[2])) + tuple(t[3:])
     return t
+
+
+def refine_alts(bi, t, depth=0):
+    """Like `refine`, but when several definitions of a carrier local build the variant that is read, each of them is an
+    alternative: [(term, block of the carrier definition that fixes the alternative or None)].
+    (`let settled = match .. { .. => Some(Some(item)), .. => Some(None), .. => None }; if let Some(out) = settled { return
+    Ready(out) }` returns Ready(Some(item)) from the first definition and Ready(None) from the second.)"""
+    if not isinstance(t, tuple) or not t or depth > 6:
+        return [(t, None)]
+    if t[0] == "field" and isinstance(t[1], tuple) and t[1] and t[1][0] == "variant":
+        v, k = t[1][2], t[2]
+        outs = []
+        for base, anchor in refine_alts(bi, t[1][1], depth + 1):
+            if base[0] == "phi":
+                defs = [(d[0], bi.T._of_def(base[1], d, 1)) for d in _live_defs(bi, base[1])]
+                aggs = [(b_, d) for b_, d in defs if d[0] == "agg" and isinstance(d[1], tuple) and len(d[1]) == 2]
+                hit = [(b_, d) for b_, d in aggs if d[1][1] == v and isinstance(k, int) and k < len(d[2])]
+                if defs and len(aggs) == len(defs) and hit:
+                    for b_, d in hit:
+                        for x, a2 in refine_alts(bi, d[2][k], depth + 1):
+                            outs.append((x, a2 if a2 is not None else b_))
+                    continue
+            elif base[0] == "agg" and isinstance(base[1], tuple) and len(base[1]) == 2 and base[1][1] == v and isinstance(k, int) and k < len(base[2]):
+                for x, a2 in refine_alts(bi, base[2][k], depth + 1):
+                    outs.append((x, a2 if a2 is not None else anchor))
+                continue
+            outs.append((("field", ("variant", base, v), k), anchor))
+        return outs
+    if t[0] == "field":
+        outs = []
+        for base, anchor in refine_alts(bi, t[1], depth + 1):
+            if base[0] == "agg" and base[1] == "tuple" and isinstance(t[2], int) and t[2] < len(base[2]):
+                for x, a2 in refine_alts(bi, base[2][t[2]], depth + 1):
+                    outs.append((x, a2 if a2 is not None else anchor))
+            elif base[0] == "agg" and isinstance(base[1], tuple) and len(base[2]) == 1 and t[2] == 0 and base[1][0] == base[1][1]:
+                for x, a2 in refine_alts(bi, base[2][0], depth + 1):
+                    outs.append((x, a2 if a2 is not None else anchor))
+            else:
+                outs.append((("field", base, t[2]) + tuple(t[3:]), anchor))
+        return outs
+    if t[0] == "agg" and len(t[2]) <= 3:
+        combos = [((), None)]
+        for x in t[2]:
+            nxt = []
+            for fx, a2 in refine_alts(bi, x, depth + 1):
+                for pre, a1 in combos:
+                    nxt.append((pre + (fx,), a1 if a1 is not None else a2))
+            combos = nxt[:16]
+        return [(("agg", t[1], pre) + tuple(t[3:]), a) for pre, a in combos]
+    return [(t, None)]
 
 
 def returns_of(bi, *kinds):
